@@ -54,6 +54,7 @@ inductive Item
   | inst (mod name : String) (params : Params) (attrs : Attrs) (named : Bool)
       (conns : List (Option String × XExpr))
   | assign (l r : XAtom)
+  | defparam (inst key value : String)
   deriving Repr, Inhabited
 
 structure Module where
@@ -439,6 +440,13 @@ def elabItem (s : St) (dn : String) (prim : Bool) : Item → M St
   | .inst mod name params attrs named conns =>
     if prim then pure s else instantiate s dn mod name params attrs named conns
   | .assign l r => if prim then pure s else assignStmt s dn l r
+  | .defparam i k v =>
+    if prim then pure s else do
+      -- parse_defparam_parameters: the named instance of the current definition; first value wins
+      let d ← getDef s dn
+      if (instIdx d i).isNone then throw "assert: identifer of existing instance" else
+      pure (s.upd dn (fun d => { d with insts := d.insts.map (fun x =>
+        if x.name == i then { x with params := if x.params.any (fun kv => kv.1 == k) then x.params else x.params ++ [(k, v)] } else x) }))
 
 def elabModule (s : St) (m : Module) : M St := do
   let s := s.ensure m.name
